@@ -57,7 +57,7 @@ def run(prop, P, scratch, log):
         t2, k = re.subn(r'((?:pub(?:\(crate\))? )?(?:broadcast )?proof fn (\w+)\b(?:(?!\n\}).)*?\n\{)', repl, t, flags=re.S)
         n_lem += k
         open(lem, 'w').write(t2)
-    res = core.run_verus(w, ['--rlimit', '40'])
+    res = core.run_verus(w, ['--rlimit', '100'])
     fr = core.function_results(res)
     failed = {f[5:] if f.startswith('ipp::') else f for (_m, f, ok, _t, _r) in fr if not ok}
     passed_unexpectedly = [n for n in names if n not in failed]
@@ -70,9 +70,9 @@ def run(prop, P, scratch, log):
     # stability: re-run the real weave with a doubled resource limit and compare
     d2 = os.path.join(scratch, 'stab')
     w2 = core.weave_tree(d2, contracts)
-    r2 = core.run_verus(w2, ['--rlimit', '80'])
+    r2 = core.run_verus(w2, ['--rlimit', '200'])
     fr2 = core.function_results(r2)
-    out['stability_rerun'] = {'rlimit': 80, 'functions': len(fr2), 'all_ok': all(ok for (_m, _f, ok, _t, _r) in fr2),
+    out['stability_rerun'] = {'rlimit': 200, 'functions': len(fr2), 'all_ok': all(ok for (_m, _f, ok, _t, _r) in fr2),
                               'max_rlimit_used': max([r or 0 for (_m, _f, _ok, _t, r) in fr2] or [0]),
                               'slowest': sorted([(round((t or 0) / 1e6, 2), f) for (_m, f, _ok, t, _r) in fr2], reverse=True)[:3]}
     return out
